@@ -36,6 +36,13 @@ OPS = [  # (name, regex, replacement)
     ("del-call", r"^(\s*)(?!let\b|return\b)((self|[a-z_]+)\.[a-z_]+\([^;{}]*\);)\s*$", r"\1/* deleted */"),
     ("idx-plus", r"\[\s*([ijk])\s*\]", r"[ \1 + 1 ]"),
 ]
+OPS += [
+    # third batch: numeric literals
+    ("float-x2", r"(?<![\w.])(\d+\.\d*(?:[eE][-+]?\d+)?)(?![\w.])", lambda m: repr(float(m.group(1)) * 2.0 if float(m.group(1)) != 0.0 else 1.0)),
+    ("float-half", r"(?<![\w.])(\d+\.\d*(?:[eE][-+]?\d+)?)(?![\w.])", lambda m: repr(float(m.group(1)) * 0.5 if float(m.group(1)) != 0.0 else -1.0)),
+    ("int+1", r"(?<![\w.])(\d+)(?![\w.]|\s*\.\.)", lambda m: str(int(m.group(1)) + 1)),
+]
+BATCH3 = {"float-x2", "float-half", "int+1"}
 BATCH2 = {"rows->cols", "cols->rows", "swap-ij", "swap-ji", "swap-ik", "swap-kj", "del-stmt", "del-call", "idx-plus"}
 
 PROPS_FOR = [
@@ -93,7 +100,7 @@ def enumerate_mutants(files_glob):
             for name, pat, rep in OPS:
                 if ONLY_OPS and name not in ONLY_OPS: continue
                 for m in re.finditer(pat, code):
-                    new = line[:m.start()] + m.expand(rep) + line[m.end():]
+                    new = line[:m.start()] + (rep(m) if callable(rep) else m.expand(rep)) + line[m.end():]
                     if new != line:
                         muts.append({"file": rel, "line": i + 1, "op": name, "col": m.start(), "old": line.strip()[:160], "new": new.strip()[:160], "_new_line": new})
     return muts
@@ -218,10 +225,13 @@ def main():
     ap.add_argument("--files", default=""); ap.add_argument("--scratch", default="/tmp/ohsl-mut"); ap.add_argument("--seed", type=int, default=1)
     ap.add_argument("--append", action="store_true")
     ap.add_argument("--redo-weak", action="store_true", help="re-run the mutants that were noticed only as a correspondence break")
+    ap.add_argument("--batch3", action="store_true", help="only the third batch of operators (numeric literals)")
     ap.add_argument("--batch2", action="store_true", help="only the second batch of operators (statement deletion, index / dimension swaps)")
     a = ap.parse_args()
     global ONLY_OPS
     if a.batch2: ONLY_OPS = BATCH2
+    elif a.batch3: ONLY_OPS = BATCH3
+    elif not a.redo_weak: ONLY_OPS = {n for n, _, _ in OPS} - BATCH2 - BATCH3
     muts = enumerate_mutants(a.files)
     random.Random(a.seed).shuffle(muts)
     done = set()
